@@ -413,6 +413,11 @@ func (e *zzEnv) portions(items []parser.AllotmentValue) (pn, pd []int64, sumOK b
 			nRem++
 			pn[i], pd[i] = 0, 1
 		case *parser.RatioLiteral:
+			if !a.Numerator.IsInt64() || !a.Denominator.IsInt64() || a.Denominator.Int64() > 1000000 || a.Numerator.Int64() > 1000000 {
+				// the reference computes with machine integers: larger portions are outside ITS reach
+				e.unsupported = "portion beyond the reference's 64-bit arithmetic (covered by the portion-literal cases)"
+				return pn, pd, true
+			}
 			pn[i], pd[i] = a.Numerator.Int64(), a.Denominator.Int64()
 		case *parser.Variable:
 			v := e.eval(a)
@@ -424,6 +429,10 @@ func (e *zzEnv) portions(items []parser.AllotmentValue) (pn, pd []int64, sumOK b
 		}
 		if pd[i] == 0 {
 			e.unsupported = "zero denominator"
+			return pn, pd, true
+		}
+		if sd > 1000000000000 {
+			e.unsupported = "portion sum beyond the reference's 64-bit arithmetic"
 			return pn, pd, true
 		}
 		sn, sd = sn*pd[i]+pn[i]*sd, sd*pd[i]
